@@ -148,6 +148,11 @@ func (w *world) Run(t *rt.Tape, trace bool) *core.Result {
 		knobs = fmt.Sprintf("lowWaterMark=%d words, batch sizes %d then %d triples", low, first, next)
 	}
 
+	// the verbose flag of Run (one case in five, all parties): reports, never results
+	verbose := t.Choose(rt.SGen, 5) == 0
+	if verbose {
+		res.Reach["option.verbose"]++
+	}
 	// One case in six: before the circuit of the case the parties are given a circuit with an OR gate
 	// (not compiled for the GMW target): every party's Run must refuse it; what follows on the same
 	// network objects is judged as usual.
@@ -268,14 +273,14 @@ func (w *world) Run(t *rt.Tape, trace bool) *core.Result {
 				if badCirc != nil {
 					// fail, then carry on: a circuit that was not compiled for this protocol (it has an
 					// OR gate) is refused by every party; the network is then used for the real one
-					if _, berr := p.nw.Run(badIn[p.id], badCirc, false); berr != nil {
+					if _, berr := p.nw.Run(badIn[p.id], badCirc, verbose); berr != nil {
 						rt.Reach("fail-then-carry-on.unsupported-circuit-refused")
 					}
 				}
-				p.out, p.runErr = p.nw.Run(in[p.id], circ, false)
+				p.out, p.runErr = p.nw.Run(in[p.id], circ, verbose)
 				rt.Tracef("HARNESS party %d: Run returned %s err=%v", p.id, gen.FmtInts(p.out), p.runErr)
 				if circ2 != nil && p.runErr == nil {
-					p.out2, p.runErr2 = p.nw.Run(in2[p.id], circ2, false)
+					p.out2, p.runErr2 = p.nw.Run(in2[p.id], circ2, verbose)
 					p.ran2 = true
 					rt.Tracef("HARNESS party %d: second Run returned %s err=%v", p.id, gen.FmtInts(p.out2), p.runErr2)
 				}
